@@ -1146,6 +1146,25 @@ def _iter_adaptor(name):
     return m
 
 
+
+def m_iter_position(it, st, fr, t, args, ga):
+    """Iterator::position / rposition over a slice iterator: None, or Some(i) with 0 <= i < len (which element matched is not
+    modelled; an empty sequence only yields None)"""
+    c = _cont(it, st, args[0])
+    if c.len is None:
+        raise I.InterpError('position over a sequence of unknown length')
+    states = []
+    s0 = st.fork()
+    states.append((s0, none()))
+    if st.ctx.decide(cmp_term('Gt', c.len, 0)) is not False:
+        s1 = st.fork()
+        s1.ctx.assume(cmp_term('Gt', c.len, 0))
+        i = s1.ctx.sym_range(s1.fresh_name('position'), 0, 2 ** 32, integer=True)
+        s1.ctx.assume(cmp_term('Lt', i, c.len))
+        states.append((s1, some(I.Num(i, "usize"))))
+    return ('states', states)
+
+
 def m_iter_sum(it, st, fr, t, args, ga):
     c = _cont(it, st, args[0])
     return I.Num(t_app('sum', [c.term]), 'f32')
@@ -1404,6 +1423,9 @@ def registry():
         'core::iter::Iterator::skip': _iter_adaptor('skip'),
         'core::iter::Iterator::rev': _iter_adaptor('rev'),
         'core::iter::Iterator::sum': m_iter_sum,
+        'core::iter::Iterator::position': m_iter_position,
+        "<core::slice::Iter<'a, T> as core::iter::Iterator>::position": m_iter_position,
+        'core::iter::DoubleEndedIterator::rposition': m_iter_position,
         'core::iter::Iterator::fold': m_fold,
         'core::iter::Iterator::copied': m_copied,
         'core::iter::Iterator::cloned': m_copied,
